@@ -31,7 +31,7 @@ def main():
             os.makedirs(os.path.dirname(os.path.join(wt, d)) or wt, exist_ok=True)
             shutil.copy(os.path.join(src, d), os.path.join(wt, d))
         pk = sorted(set("./" + (os.path.dirname(d) or ".") for d in demos))
-        democmd = "go test -vet=off -count=1 -run '(?i)seed' " + " ".join(pk)
+        democmd = "go test -vet=off -count=1 " + os.environ.get('SEED_DEMO_FLAGS', '') + " -run '(?i)seed' " + " ".join(pk)
         rc, out = sh(democmd, wt)
         meta["demo_with_change"] = "fail (as required)" if rc != 0 else "PASSES (demo does not detect the change)"
         meta["ran"].append("%s with change -> exit %d" % (democmd, rc))
